@@ -333,8 +333,13 @@ fn monotone(case_seed: u64, r: &mut Report) {
                 }
             }
             3 => {
-                desc = format!("fail {}", mname(m));
-                if !use_mgr {
+                if use_mgr {
+                    // late registration of a member (dynamic membership change / late connection),
+                    // possibly after the member was already learned through gossip
+                    desc = format!("add_peer {}", mname(m));
+                    mgr.add_peer(mname(m));
+                } else {
+                    desc = format!("fail {}", mname(m));
                     st.fail(&mname(m));
                 }
             }
@@ -600,7 +605,7 @@ fn main() {
 
     let meta = Meta {
         property: "C17",
-        rule: "conv-exhaustive: every multiset of <=N (quick 4, thorough 5) updates over 2 members x incarnation{0,1,2} x timestamp{1,2} x {Healthy,Degraded,Failed}, each delivered in every permutation x every batching (+ full re-delivery) to a fresh real LWWMembershipState and compared with the canonical delivery; conv-random: 3-10 updates over 2-4 members (incl. Unknown health), sampled permutations/batchings/duplications through merge and through GossipMembershipManager::handle_gossip(Sync); monotone: random programs of merges and local events (suspicions may name incarnations nobody announced) with per-call checks; hlc: random programs of now / receive (wall before, equal to, after the clock's; arbitrary logical counters) / clock jumps on the real HybridLogicalClock, every issued timestamp compared with the previous one. A case is distinct by the hash of its update multiset / trace and non-trivial if at least two different updates concern the same member (so order can matter).",
+        rule: "conv-exhaustive: every multiset of <=N (quick 4, thorough 5) updates over 2 members x incarnation{0,1,2} x timestamp{1,2} x {Healthy,Degraded,Failed}, each delivered in every permutation x every batching (+ full re-delivery) to a fresh real LWWMembershipState and compared with the canonical delivery; conv-random: 3-10 updates over 2-4 members (incl. Unknown health), sampled permutations/batchings/duplications through merge and through GossipMembershipManager::handle_gossip(Sync); monotone: random programs of merges and local events (suspicions may name incarnations nobody announced; through the manager also add_peer of members already learned through gossip) with per-call checks; hlc: random programs of now / receive (wall before, equal to, after the clock's; arbitrary logical counters) / clock jumps on the real HybridLogicalClock, every issued timestamp compared with the previous one. A case is distinct by the hash of its update multiset / trace and non-trivial if at least two different updates concern the same member (so order can matter).",
         assumptions: vec![
             "views are compared on (health, incarnation) per member, as the statement says; timestamps and wall-clock stamps are not compared".into(),
             "manager convergence uses a sender that is not an observed member, because handle_sync additionally marks the *sender* healthy with a local timestamp (a local event, not a membership update)".into(),
